@@ -91,6 +91,8 @@ impl Iterator for CaptureGroupIterator<'_> {
     type Item = usize;
 
     fn next(&mut self) -> Option<Self::Item> {
+        #[cfg(regexml_verif)]
+        crate::verif::tick(2);
         let next = self.basis.next()?;
 
         // Increase valid paren count
